@@ -93,7 +93,7 @@ func reach(t *Tree, roots []*ssa.Function, dyn map[*ssa.Function][]*ssa.Function
 				if gc, ok := ex.Tuple.(*ssa.Call); ok && gc.Call.StaticCallee() != nil && gc.Call.StaticCallee().Pkg != nil && gc.Call.StaticCallee().Pkg.Pkg.Path() == pRT {
 					run, chk := registryMaps(t)
 					var tab map[string]*ssa.Function
-					switch gc.Call.StaticCallee().Name() {
+					switch fnName(gc.Call.StaticCallee()) {
 					case "GetFuncCall":
 						tab = run
 					case "GetFuncCheck":
